@@ -45,7 +45,7 @@ def selftest():
 
 
 def REQUIRED_COVER(tier):
-    return {'kind:short', 'kind:long', 'kind:same', 'noncanonical', 'aug', 'aug_e', 'aug:extra-owns-ref', 'pruned:inner', 'pruned:root', 'tree-hash', 'tree-edit', 'label:1023', 'values:equal-subtries'}
+    return {'kind:short', 'kind:long', 'kind:same', 'noncanonical', 'aug', 'aug_e', 'aug:extra-owns-ref', 'pruned:inner', 'pruned:root', 'tree-hash', 'tree-edit', 'failure-history', 'label:1023', 'values:equal-subtries'}
 
 
 # ------------------------------------------------------------------ labels
@@ -406,9 +406,63 @@ def shard_hashmap_aug_e_empty(rec):
     rec.state('aug_e_empty')
 
 
+def shard_failure_histories(rec):
+    """wave 10: dictionaries the parser REFUSES deep inside the tree (a leaf whose value is cut short, 150 levels down), a dozen of them, then
+    a valid dictionary of the same depth through every plain entry point: all its leaves.  Nothing of a failed parse may be left behind."""
+    from pytoniq_core.boc import HashMap, Builder
+    width = 160
+    keys = [0] + [1 << i for i in range(150)]
+    good = RH.build({k: RBITS.uint(k % 251, 8) for k in keys}, width)
+    # the malformed twin: the leaf of key 4 (remaining key length 2, about 147 levels down) gets an hml_long label that claims 3 bits - the
+    # parser refuses it INSIDE its recursion
+    chain = [good]
+    while chain[-1].refs:
+        chain.append(chain[-1].refs[0])
+    forks = chain[:-1]
+
+    def rebuild(i):
+        c = forks[i]
+        if i == len(forks) - 3:
+            return RC.RCell(c.bits, (c.refs[0], RC.RCell('10' + '11' + '10101010')))
+        return RC.RCell(c.bits, (rebuild(i + 1), c.refs[1]))
+    bad = rebuild(0)
+    lgood, lbad = to_lib(good), to_lib(bad)
+    deser = lambda s: s.load_uint(8)
+    entries = [('HashMap.parse', lambda c: HashMap.parse(c.begin_parse(), width, None, deser)),
+               ('load_hashmap', lambda c: c.begin_parse().load_hashmap(width, None, deser)),
+               ('load_dict', lambda c: Builder().store_dict(c).end_cell().begin_parse().load_dict(width, None, deser)),
+               ('from_cell', lambda c: {k: deser(v) for k, v in HashMap.from_cell(c, width).map.items()})]
+    want = {k: k % 251 for k in keys}
+    for ename, parse in entries:
+        rec.case('failure-history')
+        rec.state(('failhist', ename))
+        rec.nontriv(('failhist', ename))
+        refused = 0
+        for _ in range(12):
+            rec.trans()
+            try:
+                parse(lbad)
+            except Exception:
+                refused += 1
+        if refused != 12:
+            raise AssertionError(f'the malformed dictionary was not refused by {ename} ({refused} of 12): the case is vacuous')
+        try:
+            got = parse(lgood)
+        except Exception as e:
+            rec.violation('failure-history:raises', f'{ename}: a valid dictionary (width {width}, {len(keys)} keys, about 150 levels) parsed after {refused} refused malformed ones: '
+                          f'{exc_name(e)}: {str(e)[:120]}', 'shard_failure_histories', {})
+            continue
+        rec.trace()
+        if got != want:
+            rec.violation('failure-history:leaves', f'{ename}: a valid dictionary parsed after {refused} refused malformed ones gives other leaves', 'shard_failure_histories', {})
+            continue
+        rec.outcome('ok')
+    rec.covered('failure-history')
+
+
 def shards(tier, seed):
     full = tier == 'thorough'
-    out = []
+    out = [{'fn': 'shard_failure_histories', 'args': {}}]
     step = 16 if full else 64
     for lo in range(0, 1024, step):
         out.append({'fn': 'shard_labels', 'args': {'lo': lo, 'hi': min(1023, lo + step - 1), 'full': full}, 'prio': lo // step if full else 1})
